@@ -51,10 +51,17 @@ def insertEvByKey (e : Event) : List Event → List Event
     batch is Go map order) -/
 def sortEvsByKey (l : List Event) : List Event := l.foldl (fun acc e => insertEvByKey e acc) []
 
+/-- the Update (if not Equal) / Add changes of `StaticCollection.Reset(newState)`, in the order of `newState`;
+    a key that occurs twice is compared with its earlier occurrence (the later object wins) -/
+def resetSets : List Obj → List Obj → List SrcOp
+  | _, [] => []
+  | cur, o :: objs =>
+    (if oget cur o.key == some o then [] else [SrcOp.set o]) ++ resetSets (o :: cur.filter (fun c => c.key != o.key)) objs
+
 /-- the changes `StaticCollection.Reset(newState)` distributes, as one batch: Update (if not Equal) /
     Add in the order of `newState`, then Delete of what is left -/
 def resetOps (cur objs : List Obj) : List SrcOp :=
-  (objs.filter (fun o => oget cur o.key != some o)).map SrcOp.set ++
+  resetSets cur objs ++
   ((cur.filter (fun o => (oget objs o.key).isNone)).map (fun o => SrcOp.del o.key))
 
 def showStep (before after : Sys) : String :=
